@@ -15,13 +15,14 @@ def chrom(c, style):
     return base if style == "" else "chr" + base
 
 
-def make_ga(cls, rows, meta=None, index="range"):
+def make_ga(cls, rows, meta=None, index="range", exact=False):
     """rows: list of dicts (one representative row per class).  index="any": the caller's table may carry any index
     (filtered / subset rows), so label-aligned stores of fresh Series are hazards"""
     n = len(rows)
     cols = {c: Vec((r[c] for r in rows), aligned=True) for c in rows[0]} if rows else {}
     g = GA(cls, cols, n, meta)
     g.data.index = index
+    g.data.exact = exact          # exact=True: len() is the literal number of rows (a group of exactly these rows)
     return g
 
 
